@@ -66,6 +66,7 @@ def check(c: Check):
     # one of them is kept in a container shared by all (a memo keyed by less than what the value depends on gives
     # the anchor of one phase to the same instruction of every other phase)
     clause_j(c)
+    clause_k(c)
     check_no_shared_class_state(c, 'C20-i', ['exactly_lib.definitions', 'exactly_lib.help', 'exactly_lib.cli.program_modes.help',
                                              'exactly_lib.common.help', 'exactly_lib.util.textformat'], 300,
                                 'a target or text made for one section / entity is handed out for the others')
@@ -969,3 +970,40 @@ def clause_j(c: Check):
                      'looking up a name that relates to the keys of the list as %s gives %s (documented: %s)' % (
                          list(world), sorted(got, key=str), want), lk.loc())
     c.floor('C20-j', 'key lists the name lookup is evaluated on', n_worlds, 30)
+
+
+# ---------------------------------------------------------------- k
+def clause_k(c: Check):
+    """TAB the predefined parts of the manual (test case / suite specification, the three CLI pages): every member of
+    HelpPredefinedContentsPart is the FIXED ROOT TARGET of exactly one section (`with_fixed_root_target(<reference to the
+    member>, ..)`) - none twice (an anchor that exists twice), none never (every link to it is dead)."""
+    ix, fo = c.ix, c.fo
+    enum_cls = ix.cls('exactly_lib.definitions.cross_ref.concrete_cross_refs:HelpPredefinedContentsPart')
+    ref_cls = ix.cls('exactly_lib.definitions.cross_ref.concrete_cross_refs:PredefinedHelpContentsPartReference')
+    members = fo.enum_members(enum_cls)
+    used = {}
+    n_sites = 0
+    for name in ix.all_module_names():
+        if 'with_fixed_root_target' not in ix.text(name):
+            continue
+        m = ix.module(name)
+        for n in ast.walk(m.tree):
+            if isinstance(n, ast.Call) and isinstance(n.func, (ast.Attribute, ast.Name)) and \
+                    (n.func.attr if isinstance(n.func, ast.Attribute) else n.func.id) == 'with_fixed_root_target' and n.args:
+                f = m.enclosing_func(n)
+                a = util.resolve_temp(f, n.args[0]) if f is not None else n.args[0]
+                if isinstance(a, ast.Call) and ix.callee(m, f, a) is ref_cls and a.args:
+                    n_sites += 1
+                    v = fo.fold(m, f, a.args[0])
+                    if isinstance(v, EnumMember):
+                        used.setdefault(v.name, []).append('%s:%d' % (m.relpath, n.lineno))
+                    else:
+                        c.require(False, 'C20-k: the predefined part of %s:%d does not fold' % (m.relpath, n.lineno))
+    for mem in sorted(members):
+        sites = used.get(mem, [])
+        c.expect(len(sites) == 1, 'C20-k', 'predefined-part-target/%s' % mem,
+                 'the predefined part %s is the fixed root target of %d sections (%s): %s' % (
+                     mem, len(sites), ', '.join(sites) or 'none',
+                     'its anchor exists more than once' if len(sites) > 1 else 'every link to it is dead'),
+                 sites[0] if sites else enum_cls.loc())
+    c.floor('C20-k', 'sections with a predefined part as fixed root target', n_sites, 4)
